@@ -27,6 +27,31 @@ var visibleOps = func() map[int]bool {
 
 var helperPkg = native.Packages{"helper": native.Package{Name: "helper", Declarations: native.Declarations{
 	"Send": func(ch chan int, v int) { ch <- v },
+	// ParMap calls f(i), i < n, from `workers` goroutines at once and returns
+	// the sum of the first results and the total length of the second ones.
+	"ParMap": func(f func(int) (int, string), workers, n int) (int, int) {
+		var wg sync.WaitGroup
+		sums := make([]int, workers)
+		lens := make([]int, workers)
+		for w := 0; w < workers; w++ {
+			wg.Add(1)
+			go func(w int) {
+				defer wg.Done()
+				for i := w; i < n; i += workers {
+					v, s := f(i)
+					sums[w] += v
+					lens[w] += len(s)
+				}
+			}(w)
+		}
+		wg.Wait()
+		t, l := 0, 0
+		for w := range sums {
+			t += sums[w]
+			l += lens[w]
+		}
+		return t, l
+	},
 }}}
 
 func (p Prog) gcSource() string {
@@ -175,7 +200,7 @@ func TestRace(t *testing.T) {
 		stress[sp.Name] = true
 		progs = append(progs, sp)
 	}
-	progs = append(progs, multiConsumer(4, 1000), nativeGo(8))
+	progs = append(progs, multiConsumer(4, 1000), nativeGo(8), callbackPar(2, 8), callbackPar(8, 4000))
 	for _, p := range progs {
 		prog, err := scriggo.Build(scriggo.Files{"main.go": []byte(p.Src)}, &scriggo.BuildOptions{AllowGoStmt: true, Packages: helperPkg})
 		if err != nil {
